@@ -221,6 +221,23 @@ def oracle(case, ctx):
     if bad:
         sig = {'kind': 'malformed', 'fn': fn}
         ctx.fail(f'{fn}({p}) seed {seed}: malformed initial state: {"; ".join(bad[:3])}', sig)
+    # what a caller does to a returned state (transition functions work in place) must not leak into later initial states
+    for row in s.grid.objects:
+        for o in row:
+            if isinstance(o, go.Door):
+                o.state = go.Door.Status.OPEN
+            if hasattr(o, 'color') and type(o) in (go.Exit, go.Key, go.Telepod, go.Beacon, go.Door):
+                o.color = go.Color.GREEN if o.color is not go.Color.GREEN else go.Color.BLUE
+    s.agent.position = type(s.agent.position)(0, 0)
+    try:
+        again = objs.canon_state(call(fn, p, seed))
+    except Exception as e:  # noqa: BLE001
+        ctx.fail(f'{fn}({p}) seed {seed}: a second call with the same seed raised {type(e).__name__}', {'kind': 'reset_history', 'fn': fn})
+        again = d
+    if again != d:
+        ctx.fail(f'{fn}({p}) seed {seed}: a second call with the same seed returns a different state after the first result was modified in place '
+                 f'(objects shared between calls?): {[(q, M.cell(d, q), M.cell(again, q)) for q in M.positions(d) if M.cell(d, q) != M.cell(again, q)][:4]}',
+                 {'kind': 'reset_history', 'fn': fn})
     ctx.ev.case(case, nt=True, classes=[fn + ':state'] + ([fn + ':honourable'] if hon else []), key=[fn, p, d])
 
 
